@@ -26,3 +26,82 @@ func init() {
 		return nil
 	}
 }
+
+func init() {
+	// In-place reference cycle detection over the resolved graph (guard only, never an oracle):
+	// nodes = every schema reachable from the root through any field or reference; edges =
+	// in-place applicators (same instance location) and $ref/$dynamicRef targets.
+	inPlaceCycle = func(rs *jsonschema.Resolved) bool {
+		refs, dyn := rs.VerifRefs()
+		targets := map[*jsonschema.Schema][]*jsonschema.Schema{}
+		for _, r := range refs {
+			if r.Target != nil {
+				targets[r.From] = append(targets[r.From], r.Target)
+			}
+			if r.Anchor != "" {
+				targets[r.From] = append(targets[r.From], dyn[r.Anchor]...)
+			}
+		}
+		inPlace := func(s *jsonschema.Schema) []*jsonschema.Schema {
+			var out []*jsonschema.Schema
+			out = append(out, s.AllOf...)
+			out = append(out, s.AnyOf...)
+			out = append(out, s.OneOf...)
+			for _, x := range []*jsonschema.Schema{s.Not, s.If, s.Then, s.Else} {
+				if x != nil {
+					out = append(out, x)
+				}
+			}
+			for _, x := range s.DependentSchemas {
+				out = append(out, x)
+			}
+			for _, x := range s.DependencySchemas {
+				out = append(out, x)
+			}
+			out = append(out, targets[s]...)
+			return out
+		}
+		// all nodes
+		var all []*jsonschema.Schema
+		seen := map[*jsonschema.Schema]bool{}
+		var collect func(s *jsonschema.Schema)
+		collect = func(s *jsonschema.Schema) {
+			if s == nil || seen[s] {
+				return
+			}
+			seen[s] = true
+			all = append(all, s)
+			for _, c := range schemaChildren(s) {
+				collect(c)
+			}
+			for _, c := range targets[s] {
+				collect(c)
+			}
+		}
+		collect(rs.Schema())
+		color := map[*jsonschema.Schema]int{}
+		var dfs func(s *jsonschema.Schema) bool
+		dfs = func(s *jsonschema.Schema) bool {
+			color[s] = 1
+			for _, n := range inPlace(s) {
+				if n == nil {
+					continue
+				}
+				if color[n] == 1 {
+					return true
+				}
+				if color[n] == 0 && dfs(n) {
+					return true
+				}
+			}
+			color[s] = 2
+			return false
+		}
+		for _, s := range all {
+			if color[s] == 0 && dfs(s) {
+				return true
+			}
+		}
+		return false
+	}
+}
